@@ -284,6 +284,9 @@ func (t *Dst) Push(ctx context.Context, d ocispec.Descriptor, r io.Reader) error
 	if t.W.Split {
 		vs.Pt("dst.Push(" + nm + ").store")
 	}
+	if err := ctx.Err(); err != nil {
+		return err // a destination that honours its context: nothing is stored once the context is done
+	}
 	if t.W.Racing && id >= 0 {
 		closed := true
 		for _, s := range t.W.D.SuccSet(id, true) {
